@@ -1,7 +1,9 @@
 (* C08 driver.  One case per line:
      <id> <fmt> <accept> <target> <input>
    fmt / accept : "N" (NULL) or "s"<hex> (the C string, hex may be empty)
-   target       : "~" (no children) or a forest  (name,val,kids)(...)  name = hex, val = "n" | "v"<hex>
+   target       : "~" (no children) or a forest  (name,val,kids)(...)  name = hex, val = "n" | "v"<hex>;
+                  "@B" / "@D" = caller-loop family (the element functions on a path of the caller with / without
+                  MPT_PATHFLAG(SepBinary), model [parse_events_b]): tokens F.. A.. E..* R.. L0
    input        : comma separated chunks, each <hex> or <hexbyte>*<count>;  "-" = empty
    Output "M <id> tok..." : F.. A.. E..* R.. T.. N.. T.. L0   (same layout as harness/c08_parse.c)
    With --spec the input file holds the harness output lines ("I <id> tok...") and the
@@ -77,14 +79,19 @@ let model_line id fmt acc target input =
   let (ar, al) = parse_accept (allow_variant allow_init raw_variant) ac in
   let atok = Printf.sprintf "A%d:%d.%d" (int_of_z ar) (int_of_z al.asect) (int_of_z al.aopt) in
   let inp = parse_input input in
-  let tgt = parse_forest target in
+  let caller = String.length target > 0 && target.[0] = '@' in
+  let bin = caller && String.length target > 1 && target.[1] = 'B' in
+  let tgt = if caller then [] else parse_forest target in
   let evtoks = match next_fcn ret with
     | None -> ["R!"]
     | Some fam ->
-      let c = parse_events fam f al inp in
+      let c = if caller then parse_events_b bin fam f al inp else parse_events fam f al inp in
       List.map show_event c.c_h @
       [Printf.sprintf "R%s:%d:%d:%d:%d" (code c.c_ret) (int_of_z c.c_st.line) (int_of_z c.c_st.calls)
          (int_of_z c.c_st.pcurr) (List.length inp)] in
+  if caller then
+    Printf.printf "M %s %s\n" id (String.concat " " ([ftok; atok] @ evtoks @ ["L0"]))
+  else
   let nr = parse_node tgt fs al inp in
   let toks = [ftok; atok] @ evtoks @
              ["T" ^ dump_forest tgt;
@@ -98,13 +105,26 @@ let bytes_of_tok s =
   if String.length s > 0 && s.[0] = '#' then List.init (String.length s) (fun i -> z_of_int (Char.code s.[i]))
   else zbytes_of_hex s
 
+let has_sub t sub =
+  let n = String.length t and m = String.length sub in
+  let rec go i = i + m <= n && (String.sub t i m = sub || go (i + 1)) in go 0
+let strip_sub t sub =
+  let n = String.length t and m = String.length sub in
+  let b = Buffer.create n in
+  let k = ref 0 in
+  while !k < n do
+    if !k + m <= n && String.sub t !k m = sub then k := !k + m else (Buffer.add_char b t.[!k]; incr k)
+  done; Buffer.contents b
+
 let event_of_tok t =
+  let t = strip_sub t "!bin" in
   (* E<ret>.<prev>:<path>:<first>:<val> *)
   match String.split_on_char ':' (String.sub t 1 (String.length t - 1)) with
   | [rp; path; first; v] ->
     let (r, p) = match String.split_on_char '.' rp with [a; b] -> (int_of_string a, int_of_string b) | _ -> failwith "ev" in
     let elems = if path = "~" then [] else
-        List.map (fun x -> bytes_of_tok (String.sub x 1 (String.length x - 1))) (String.split_on_char '/' path) in
+        List.map (fun x -> bytes_of_tok (String.sub x 1 (String.length x - 1)))
+          (List.filter (fun x -> x <> "") (String.split_on_char '/' path)) in
     let value = if v = "n" then None else Some (bytes_of_tok (String.sub v 1 (String.length v - 1))) in
     { ev_ret = z_of_int r; ev_prev = z_of_int p; ev_path = elems; ev_first = z_of_int (int_of_string first); ev_val = value }
   | _ -> failwith ("bad event token " ^ t)
@@ -121,6 +141,8 @@ let spec_line id (toks : string list) =
   (* crash / sanitizer report / timeout / leak *)
   Array.iteri (fun i t -> if starts t 'F' && (t = "F" || t = "F:timeout") then out.(i) <- "!no-fault-and-termination") arr;
   List.iter (fun i -> if arr.(i) <> "L0" then out.(i) <- "L0") (find 'L');
+  (* binary path: the harness found the length bytes of the elements inconsistent *)
+  List.iter (fun i -> if has_sub arr.(i) "!bin" then out.(i) <- strip_sub arr.(i) "!bin") evidx;
   (* result of mpt_parse_config *)
   (match find 'R' with
    | i :: _ when arr.(i) <> "R!" ->
@@ -160,6 +182,8 @@ let () =
   let ic = open_in Sys.argv.(1) in
   List.iter (fun line ->
     match split_ws line with
-    | "I" :: id :: toks when spec -> spec_line id toks
+    | "I" :: id :: toks when spec ->
+      (* an observation the checker cannot read is no accepted observation *)
+      (try spec_line id toks with _ -> Printf.printf "S %s !unreadable-observation\n" id)
     | id :: fmt :: acc :: target :: input :: _ when not spec -> model_line id fmt acc target input
     | _ -> ()) (read_lines ic)
